@@ -839,6 +839,52 @@ def _(rng, v):
     return f, (A, d), {}
 
 
+@entry("Field on graphs whose last vertices have no edge: dilation / opening / closing / local maxima (compiled kernels)")
+def _(rng, v):
+    from nipy.algorithms.graph.field import Field
+    if v in ("empty", "singleton", "midsingle"):
+        raise Skip()
+    V = 60
+    # edges only among the first vertices, in both directions: the highest-numbered vertices are isolated
+    a = rng.integers(0, 12, 40); b = rng.integers(0, 12, 40)
+    keep = a != b
+    edges = np.vstack([np.concatenate([a[keep], b[keep]]), np.concatenate([b[keep], a[keep]])]).T
+    weights = np.ones(len(edges))
+    d = data(rng, v, (V, 2))
+
+    def f(edges, weights, d):
+        out = []
+        for fast in (True, False):
+            F = Field(V, edges.copy(), weights.copy(), np.array(d, dtype=float))
+            F.dilation(1, fast=fast); out.append(F.get_field().copy())
+            F.opening(1); F.closing(1); out.append(F.get_field().copy())
+            out.append(F.get_local_maxima(refdim=0))
+        return out
+    return f, (edges, weights, d), {}
+
+
+@entry("spatial_models SubDomains / HierarchicalROI built on the caller's label and parent arrays")
+def _(rng, v):
+    from nipy.labs.spatial_models.discrete_domain import domain_from_binary_array
+    from nipy.labs.spatial_models.mroi import SubDomains
+    from nipy.labs.spatial_models.hroi import HierarchicalROI
+    if v in ("empty", "singleton", "midsingle", "extreme"):
+        raise Skip()
+    dom = domain_from_binary_array(np.ones((3, 3, 2)))
+    lab0 = np.array([-1, 2, 5, 9, 9, 2, 5, -1, 2, 9, 5, 5, 2, -1, 9, 2, 5, 9])     # not consecutive, not 0-based
+    label = lay(lab0, v if v.startswith("dtype-") or v in ("view", "negstride", "readonly", "fortran") else "plain")
+    parents = lay(np.array([0, 0, 1]), v if v.startswith("dtype-") else "plain")
+
+    def f(label, parents):
+        out = []
+        sd = SubDomains(dom, label)
+        out += [sd.k, sd.get_size()]
+        h = HierarchicalROI(dom, label, parents)
+        out += [h.k, h.get_size()]
+        return out
+    return f, (label, parents), {}
+
+
 @entry("GeneralLinearModel contrast state machine")
 def _(rng, v):
     from nipy.modalities.fmri.glm import Contrast
